@@ -24,12 +24,12 @@ Print Assumptions C17_reporters_agree.
    libraries): both verdicts, the totals after each run and everything reported are the same for
    any two built-in reporters, and the totals after the second run are the sum over both runs *)
 Theorem C17_reporters_agree_over_consecutive_runs :
-  forall rk1 rk2 m cap n1 n2,
+  forall rk1 rk2 m1 m2 cap n1 n2,
     In rk1 builtin_reporters -> In rk2 builtin_reporters -> (1 <= cap)%nat ->
-    is_suite n1 -> ok_tree m cap n1 -> is_suite n2 -> ok_tree m cap n2 ->
+    is_suite n1 -> ok_tree m1 cap n1 -> is_suite n2 -> ok_tree m2 cap n2 ->
     exists v1 v2 p1 p2 q1 q2,
-      run_two rk1 verdict_suite m cap n1 n2 = (Finished v1 p1, Finished v2 p2) /\
-      run_two rk2 verdict_suite m cap n1 n2 = (Finished v1 q1, Finished v2 q2) /\
+      run_two rk1 verdict_suite m1 m2 cap n1 n2 = (Finished v1 p1, Finished v2 p2) /\
+      run_two rk2 verdict_suite m1 m2 cap n1 n2 = (Finished v1 q1, Finished v2 q2) /\
       tot p1 = tot q1 /\ tot p2 = tot q2 /\ out p2 = out q2 /\ tot p2 = cadd (total n1) (total n2).
 Proof. exact reporters_agree_two_runs. Qed.
 Print Assumptions C17_reporters_agree_over_consecutive_runs.
